@@ -14,6 +14,7 @@ import mirq
 from mirq import show, access_path, AnchorMissing, const_of, walk
 from rulekit import Table
 from rules import common as C
+from rules import vocab as V
 from rules import C07
 
 TABLE = Table('C09')
@@ -54,9 +55,9 @@ def r1(cx, rec):
         args = [access_path(a) or show(a) for a in e[2]]
         rec.site(H, vb, 'validate(%s)' % ', '.join(a[:50] for a in args))
         a1, a2, a3 = e[2][1], e[2][2], e[2][3]
-        rec.need((access_path(a1) or '').endswith('piece_tx.piece_index'), 'validate-arg/index', H, vb, 'loaded-index argument is %s' % show(a1)[:80])
+        rec.need((access_path(a1) or '').endswith('%s.%s' % (V.tx_slot(F), V.tx_index(F))), 'validate-arg/index', H, vb, 'loaded-index argument is %s' % show(a1)[:80])
         rec.need(access_path(a2) == 'self.pieces_num', 'validate-arg/pieces', H, vb, 'piece-count argument is %s' % show(a2)[:80])
-        rec.need(a3[0] == 'call' and a3[4].get('name') == 'len' and (access_path(a3[2][0]) or '').endswith('piece_tx.buff'), 'validate-arg/length', H, vb,
+        rec.need(a3[0] == 'call' and a3[4].get('name') == 'len' and (access_path(a3[2][0]) or '').endswith('%s.%s' % (V.tx_slot(F), V.tx_buff(F))), 'validate-arg/length', H, vb,
                  'piece-length argument is %s, not the loaded piece\'s length' % show(a3)[:80])
         for sb, t in H.outcome_edges(vb).get('ok', []):
             okreg |= H.only_via_edge((sb, t))
@@ -189,7 +190,7 @@ def r4(cx, rec):
         src = access_path(sl[0][2][0]) or ''
         rng = dict(sl[0][2][1][4])
         st, en = rng.get('start'), rng.get('end')
-        rec.need(src.endswith('piece_tx.buff'), 'reply-source', S, sbb, 'payload is sliced from %s' % src)
+        rec.need(src.endswith('%s.%s' % (V.tx_slot(F), V.tx_buff(F))), 'reply-source', S, sbb, 'payload is sliced from %s' % src)
         rec.need(st is not None and acc(st, 'block_begin'), 'reply-slice-start', S, sbb, 'slice starts at %s' % (show(st)[:80] if st else 'the beginning of the piece'))
         inner = mirq.init_of(en) if en else ('other', '')
         while inner[0] == 'field' and inner[2] == '0':
@@ -208,7 +209,7 @@ def r5(cx, rec):
     for bi, si, e in mirq.agg_sites(B, r'^commands::RequestCmd$', 'LoadAndSendPiece'):
         fields = dict(e[4])
         idx = access_path(fields['piece_index'])
-        h = fields['piece_hash']
+        h = fields[V.variant_field(F, 'commands::RequestCmd', 'LoadAndSendPiece', r'^\[u8; HASH_SIZE\]$', 'hash of the piece to load')]
         rec.site(B, bi, show(e)[:160])
         rec.need(h[0] == 'call' and h[1].endswith('Metainfo::piece') and access_path(h[2][1]) == idx, 'load-hash-index', B, bi,
                  'piece_hash is %s, not metainfo.piece(%s)' % (show(h)[:80], idx))
@@ -229,7 +230,7 @@ def r5(cx, rec):
 
             def only(edge):
                 return bi in B.only_via_edge((sb, edge))
-            if access_path(x) == 'self.am_choked' and only(ff):
+            if access_path(x) == 'self.' + V.peer_am_choked(F) and only(ff):
                 need['not-choked'] = True
                 rec.site(B, sb, 'requires !self.am_choked')
             if x[0] == 'binop' and x[1] in ('Ge', 'Lt') and access_path(x[2]) == idx and 'pieces_num' in show(x[3]):
@@ -257,16 +258,25 @@ def r5(cx, rec):
     hs = [x for x in walk(e) if x[0] == 'call' and x[1].endswith('hash_to_string')]
     src = access_path(hs[0][2][0]) if hs else None
     rec.site(f, bb, 'loads hash_to_string(%s) + ".piece"' % src)
-    rec.need(src == 'piece_hash', 'load-name', f, bb, 'piece file name is built from %s' % src)
-    for g, gb in C.callers(F, F.owner_fn(f).path):
+    LO = F.owner_fn(f)
+    hash_params = [n for n, l, t in C.params_of(LO, r'\[u8; (20|HASH_SIZE)\]')]
+    idx_params = [n for n, l, t in C.params_of(LO, r'^usize$')]
+    rec.need(len(hash_params) == 1 and src == hash_params[0], 'load-name', f, bb, 'piece file name is built from %s' % src)
+    cmd_hash = V.variant_field(F, 'commands::RequestCmd', 'LoadAndSendPiece', r'^\[u8; HASH_SIZE\]$', 'hash of the piece to load')
+    cmd_idx = V.variant_field(F, 'commands::RequestCmd', 'LoadAndSendPiece', r'^usize$', 'index of the piece to load')
+    pnames = [n for n, l, t in C.params_of(LO)]
+    for g, gb in C.callers(F, LO.path):
         ce = g.expr_call(gb)
-        a = [show(x) for x in ce[2]]
-        okk = 'LoadAndSendPiece>.piece_index' in a[1] and 'LoadAndSendPiece>.piece_hash' in a[2]
-        rec.need(okk, 'load-args', g, gb, 'loader is called with (%s, %s)' % (a[1][-40:], a[2][-40:]))
+        args = dict(zip(pnames, ce[2]))
+        a_idx = show(args.get(idx_params[0], ('other', ''))) if len(idx_params) == 1 else ''
+        a_hash = show(args.get(hash_params[0], ('other', ''))) if len(hash_params) == 1 else ''
+        okk = ('LoadAndSendPiece>.' + cmd_idx) in a_idx and ('LoadAndSendPiece>.' + cmd_hash) in a_hash
+        rec.need(okk, 'load-args', g, gb, 'loader is called with (%s, %s)' % (a_idx[-40:], a_hash[-40:]))
     for bi, si, x in mirq.agg_sites(f, r'PieceTx$'):
         fields = dict(x[4])
-        rec.need(access_path(fields.get('piece_index', ('other', ''))) == 'piece_index', 'cache-index', f, bi, 'cached piece index is %s' % show(fields.get('piece_index', ('other', '')))[:60])
-        rec.need('fs::read' in show(fields.get('buff', ('other', ''))), 'cache-data', f, bi, 'cached data is not the file just read')
+        ci = fields.get(V.tx_index(F), ('other', ''))
+        rec.need(len(idx_params) == 1 and access_path(ci) == idx_params[0], 'cache-index', f, bi, 'cached piece index is %s' % show(ci)[:60])
+        rec.need('fs::read' in show(fields.get(V.tx_buff(F), ('other', ''))), 'cache-data', f, bi, 'cached data is not the file just read')
 
 
 @TABLE.rule('6', 'K1', 'choke is honoured: every request either consults the manager, or the cached piece is dropped when the '
@@ -287,13 +297,13 @@ def r6(cx, rec):
     for f in F.user_fns():
         for sb in f.switches():
             ce, ts, o = f.cond(sb)
-            if ce[0] == 'discr' and ce[2].startswith('std::option::Option<&bool>') or (ce[0] == 'discr' and 'am_choked_map' in show(ce)):
+            if ce[0] == 'discr' and ce[2].startswith('std::option::Option<&bool>') or (ce[0] == 'discr' and V.own_state_map(F) in show(ce)):
                 # arm Some(true): find the block sending Choke and look for the None store on the same path
                 for bb in mirq.real_calls(f):
                     t = f.blocks[bb]['t']
                     if 'send_msg' in (t.get('callee') or '') and 'Choke' in ''.join(t.get('gargs') or []) and 'Unchoke' not in ''.join(t.get('gargs') or []):
                         stores = [(bi, s) for bi, si, s in f.stores()
-                                  if (access_path(f.expr_place(s['lhs'])) or '') == 'self.piece_tx'
+                                  if (access_path(f.expr_place(s['lhs'])) or '') == 'self.' + V.tx_slot(F)
                                   and f.expr_rvalue(s['rv'])[0] == 'agg' and f.expr_rvalue(s['rv'])[3] == 'None']
                         for bi, s in stores:
                             # the store is on every path from the switch to the Choke send, or vice versa on the arm
@@ -312,7 +322,6 @@ ALLOW = {
     'peer_handler::PeerHandler::send_piece::{closure#0}/index/': 'slice [begin..begin+length] of the loaded piece: bounded by Request::validate Ok edge (obligations 1, 2)',
     'peer_handler::Stats::update_uploaded/index/': 'VecDeque index 0: queue is created with one element and shift() pushes before it pops beyond MAX',
     'peer_handler::Stats::update_uploaded/overflow:Add/': 'usize byte counter',
-    'peer_handler::PeerHandler::load_piece_from_file::{closure#0}/': 'no panic site expected',
 }
 
 
@@ -325,3 +334,11 @@ def r7(cx, rec):
     # the manager round trip and the socket writer are audited elsewhere (C12 / library code)
     a = C.Audit(F, roots, ALLOW, skip_fns=skip)
     a.run(rec)
+
+
+@TABLE.rule('8', 'K7+K8', 'the manager\'s record "we choke this peer" is what the peer is told: every choke/unchoke decision of the rotation '
+            'updates am_choked and publishes the same value (shared with C14)', floor=2)
+def r8(cx, rec):
+    from rules import C14
+    C14.r1(cx, rec)
+    C14.r4(cx, rec)
